@@ -3,6 +3,7 @@ package main
 // rules_round6.go — rules added after the sixth seeded round (DESIGN.md §9.5).
 
 import (
+	"go/ast"
 	"fmt"
 	"go/constant"
 	"go/token"
@@ -331,6 +332,26 @@ func errMaybeNil(st *pathState, v ssa.Value, d int) bool {
 	}
 	if _, isMk := v.(*ssa.MakeInterface); isMk {
 		return false
+	}
+	if u, ok := v.(*ssa.UnOp); ok {
+		if _, isG := u.X.(*ssa.Global); isG {
+			return false // a package-level sentinel (var ErrX = errors.New(...)): never nil
+		}
+		// a result slot spilled because of a defer: `*slot = val; rundefers; t = *slot; return t`
+		if al, isAl := u.X.(*ssa.Alloc); isAl && d < 4 {
+			var last ssa.Value
+			for _, in := range u.Block().Instrs {
+				if in == ssa.Instruction(u) {
+					break
+				}
+				if stv, ok := in.(*ssa.Store); ok && stv.Addr == ssa.Value(al) {
+					last = stv.Val
+				}
+			}
+			if last != nil {
+				return errMaybeNil(st, last, d+1)
+			}
+		}
 	}
 	return true
 }
@@ -950,4 +971,815 @@ func c04ClientTakesTheOffer(w *World, r *Report) {
 		return
 	}
 	r.Check(bad == "" && npaths > 0, rule, key, w.Pos(up.Pos()), fmt.Sprintf("on all %d path(s) with an offer on an insecure carrier the upgrade step is told to start TLS", npaths), bad+mapStr(npaths == 0, "no path on which the server's StartTLS offer is seen"))
+}
+
+// ---------------------------------------------------------------------------------------------
+// Round 7.
+
+// ruleServerSessionClosers: the server's multiplexer session is shared by all logical connections of one
+// physical link. The handler of a single logical connection (the go-target of the stream accept loop and
+// everything it calls) never closes it: "the last one out" is not decidable from inside a handler — a sibling
+// that has selected its channel and is still dialling is not counted yet.
+func ruleServerSessionClosers(w *World, r *Report, rule string) {
+	ch := w.Named("internal/server", "ConnectionHandler")
+	sessF := fieldOf(ch, "session")
+	if ch == nil || sessF == nil {
+		r.Undecided(rule, "anchor", "-", "anchor unresolved: server.ConnectionHandler.session")
+		return
+	}
+	// per-stream handler cone: go targets inside stream accept loops, and handlers registered with the muxer
+	roots := map[*ssa.Function]bool{}
+	for _, al := range findAcceptLoops(w) {
+		if al.Kind != "stream" {
+			continue
+		}
+		for _, c := range callsIn(al.Fn) {
+			g, ok := c.(*ssa.Go)
+			if !ok {
+				continue
+			}
+			if sc := g.Call.StaticCallee(); sc != nil {
+				roots[sc] = true
+			}
+			if mc, ok := g.Call.Value.(*ssa.MakeClosure); ok {
+				roots[mc.Fn.(*ssa.Function)] = true
+			}
+		}
+	}
+	if m := w.SSAFunc(w.Method("internal/server", "ConnectionHandler", "muxHandler")); m != nil {
+		roots[m] = true
+	}
+	if len(roots) == 0 {
+		r.Undecided(rule, "handlers", "-", "no per-stream handler found")
+		return
+	}
+	var bad []string
+	seen := map[*ssa.Function]bool{}
+	n := 0
+	var walk func(f *ssa.Function, d int)
+	walk = func(f *ssa.Function, d int) {
+		if f == nil || seen[f] || d > 5 || !inModule(f) || len(f.Blocks) == 0 {
+			return
+		}
+		seen[f] = true
+		n++
+		for _, c := range callsIn(f) {
+			if t := closeTarget(w, c); t != nil {
+				for _, root := range provenance(t, provOpts{}) {
+					if isLoadOfField(root, sessF) {
+						bad = append(bad, fmt.Sprintf("%s: %s, which runs for ONE logical connection, closes the multiplexer session shared by all of them: connections that are still being opened (selected, dialling) and every stream negotiating at that moment are cut", w.Pos(c.Pos()), ssaFuncKey(f)))
+					}
+				}
+			}
+			if sc := c.Common().StaticCallee(); sc != nil {
+				walk(sc, d+1)
+			}
+			if mc, ok := c.Common().Value.(*ssa.MakeClosure); ok {
+				walk(mc.Fn.(*ssa.Function), d+1)
+			}
+		}
+		for _, a := range f.AnonFuncs {
+			walk(a, d+1)
+		}
+	}
+	for f := range roots {
+		walk(f, 0)
+	}
+	sort.Strings(bad)
+	r.Check(len(bad) == 0, rule, "field:server.ConnectionHandler.session|closers", "-", fmt.Sprintf("%d function(s) in the per-stream handler cone, none closes the shared session", n), strings.Join(bad, "; "))
+}
+
+// ruleNoClientSessionResumption: the client re-reads its CA on every connection attempt, and crypto/tls does not
+// re-verify the chain of a resumed session against the current RootCAs. A client session cache therefore lets a
+// server in whose certificate the configured CA no longer vouches complete a TLS session.
+func ruleNoClientSessionResumption(w *World, r *Report, rule string) {
+	fld := tlsConfigField(w, "ClientSessionCache")
+	if fld == nil {
+		r.Undecided(rule, "anchor", "-", "anchor unresolved: tls.Config.ClientSessionCache")
+		return
+	}
+	var bad []string
+	for fn := range allModuleFuncs(w, w.SSA()) {
+		allInstrs(fn, func(in ssa.Instruction) {
+			st, ok := in.(*ssa.Store)
+			if !ok {
+				return
+			}
+			if fa, ok := st.Addr.(*ssa.FieldAddr); ok && fieldVarOf(fa) == fld && !isConstNil(st.Val) {
+				bad = append(bad, fmt.Sprintf("%s: %s installs a TLS client session cache: a resumed session is not verified against the CA configured now (crypto/tls only re-checks expiry and host name), so a server whose CA was replaced is still accepted", w.Pos(st.Pos()), ssaFuncKey(fn)))
+			}
+		})
+	}
+	sort.Strings(bad)
+	r.Check(len(bad) == 0, rule, "field:tls.Config.ClientSessionCache|writers", "-", "no TLS client session cache is installed anywhere: every session is verified against the CA configured at that moment", strings.Join(bad, "; "))
+}
+
+// c08CodecsLeaveTheirInputAlone: R08.11 — Encode and Decode read their argument and build their result; they
+// never store into the argument's backing array (directly or in a helper that is handed the argument itself —
+// a conversion []byte(x) of a []byte copies nothing). A Decode that translates its input in place destroys the
+// encoded text: decoding it again (a duplicated answer, a retry, a verify-then-forward) yields other bytes.
+func c08CodecsLeaveTheirInputAlone(w *World, r *Report) {
+	encI := w.Interface("internal/util/enc", "Encoder")
+	if encI == nil {
+		r.Undecided("R08.11", "anchor", "-", "anchor unresolved: enc.Encoder")
+		return
+	}
+	n := 0
+	for _, t := range w.Implementers(encI) {
+		if t.Obj().Pkg() == nil || !strings.HasSuffix(t.Obj().Pkg().Path(), "/internal/util/enc") {
+			continue
+		}
+		for _, mname := range []string{"Encode", "Decode"} {
+			fn := w.SSAFunc(methodOf(t, mname))
+			if fn == nil || len(fn.Blocks) == 0 {
+				continue
+			}
+			var input *ssa.Parameter
+			for _, p := range fn.Params {
+				if _, ok := p.Type().Underlying().(*types.Slice); ok {
+					input = p
+				}
+			}
+			if input == nil {
+				continue
+			}
+			n++
+			key := "codec:" + qualName(t) + "|" + mname + "-input-untouched"
+			bad := ""
+			cone := staticCone(fn, 2)
+			for _, g := range cone {
+				allInstrs(g, func(in ssa.Instruction) {
+					st, ok := in.(*ssa.Store)
+					if !ok || bad != "" {
+						return
+					}
+					ia, ok := st.Addr.(*ssa.IndexAddr)
+					if !ok {
+						return
+					}
+					for _, root := range provWithCallers(ia.X, cone, 0) {
+						if root == ssa.Value(input) {
+							bad = fmt.Sprintf("%s: %s stores into the backing array of %s's argument: the caller's encoded (or original) bytes are overwritten — a second use of the same buffer sees other data", w.Pos(st.Pos()), ssaFuncKey(g), mname)
+						}
+					}
+				})
+				// copy(dst, ...) with dst = the argument
+				for _, c := range callsIn(g) {
+					if b, ok := c.Common().Value.(*ssa.Builtin); ok && b.Name() == "copy" && bad == "" {
+						for _, root := range provWithCallers(c.Common().Args[0], cone, 0) {
+							if root == ssa.Value(input) {
+								bad = fmt.Sprintf("%s: %s copies into %s's argument", w.Pos(c.Pos()), ssaFuncKey(g), mname)
+							}
+						}
+					}
+				}
+			}
+			r.Check(bad == "", "R08.11", key, w.Pos(fn.Pos()), "nothing is stored into the argument's backing array", bad)
+		}
+	}
+	if n == 0 {
+		r.Undecided("R08.11", "codecs", "-", "no codec method with a slice argument found")
+	}
+}
+
+// c07RefusedChunkLeavesQueueAlone: R07.20 — a chunk the in-queue refuses (outside the look-ahead window: a late
+// duplicate of something long delivered, a replayed query) is an event about THAT chunk, not about the stream.
+// On every path of InQueue.Append that returns a non-nil error nothing has been stored into the queue — in
+// particular no sticky "broken" state that makes every later Append fail too.
+func c07RefusedChunkLeavesQueueAlone(w *World, r *Report) {
+	rule := "R07.20"
+	inq := w.Named("internal/streams/dns/util", "InQueue")
+	fn := w.SSAFunc(methodOf(inq, "Append"))
+	key := "method:(*streams/dns/util.InQueue).Append|error-leaves-state"
+	if fn == nil || len(fn.Params) == 0 {
+		r.Undecided(rule, key, "-", "anchor unresolved: InQueue.Append")
+		return
+	}
+	recv := fn.Params[0]
+	storesRecv := func(g *ssa.Function, base ssa.Value) bool {
+		found := false
+		allInstrs(g, func(in ssa.Instruction) {
+			if st, ok := in.(*ssa.Store); ok {
+				v := st.Addr
+				for {
+					fa, ok := v.(*ssa.FieldAddr)
+					if !ok {
+						break
+					}
+					v = fa.X
+				}
+				if v == base && st.Addr != base {
+					found = true
+				}
+			}
+		})
+		return found
+	}
+	isEvent := func(in ssa.Instruction) bool {
+		if st, ok := in.(*ssa.Store); ok {
+			v := st.Addr
+			isField := false
+			for {
+				fa, ok := v.(*ssa.FieldAddr)
+				if !ok {
+					break
+				}
+				isField = true
+				v = fa.X
+			}
+			return isField && v == ssa.Value(recv)
+		}
+		if c, ok := in.(*ssa.Call); ok {
+			if sc := c.Call.StaticCallee(); sc != nil && inModule(sc) && len(c.Call.Args) > 0 && c.Call.Args[0] == ssa.Value(recv) && len(sc.Params) > 0 {
+				for _, g := range staticCone(sc, 1) {
+					if len(g.Params) > 0 && storesRecv(g, g.Params[0]) {
+						return true
+					}
+				}
+			}
+		}
+		return false
+	}
+	bad := ""
+	nerr := 0
+	okp := enumPaths(fn, nil, isEvent, nil, func(e pathExit) {
+		ret, isRet := e.Last.(*ssa.Return)
+		if !isRet || len(ret.Results) != 1 || bad != "" {
+			return
+		}
+		if !(!errMaybeNil(e.State, ret.Results[0], 0)) {
+			return // not a definite failure
+		}
+		nerr++
+		if len(e.State.Events) > 0 {
+			bad = fmt.Sprintf("%s: Append changes the queue (%s) on a path that refuses the chunk with an error: a single stale or replayed chunk leaves a mark that later, perfectly good chunks pay for", w.Pos(ret.Pos()), w.Pos(e.State.Events[0].Pos()))
+		}
+	})
+	if !okp {
+		r.Undecided(rule, key, w.Pos(fn.Pos()), "path budget exceeded")
+		return
+	}
+	// and no failure that depends on queue state alone: an error return must be control-dependent on the chunk
+	// (its sequence number), not only on fields of the queue
+	sticky := ""
+	enumPaths(fn, nil, nil, nil, func(e pathExit) {
+		ret, isRet := e.Last.(*ssa.Return)
+		if !isRet || len(ret.Results) != 1 || sticky != "" || errMaybeNil(e.State, ret.Results[0], 0) {
+			return
+		}
+		dependsOnChunk := false
+		for v := range e.State.Facts {
+			for _, root := range provenance(v, provOpts{}) {
+				_ = root
+			}
+			if usesParam(v, fn.Params[1], 0) {
+				dependsOnChunk = true
+			}
+		}
+		if !dependsOnChunk {
+			sticky = fmt.Sprintf("%s: Append fails on a path whose conditions look only at the queue's own state, not at the chunk: once that state is reached every later chunk is refused", w.Pos(ret.Pos()))
+		}
+	})
+	if bad == "" {
+		bad = sticky
+	}
+	r.Check(bad == "" && nerr > 0, rule, key, w.Pos(fn.Pos()), fmt.Sprintf("%d failing path(s): each leaves the queue untouched and depends on the chunk offered", nerr), bad+mapStr(nerr == 0, "Append has no failing path (the out-of-window refusal is gone)"))
+}
+
+// usesParam: does the value v (a branch condition) depend on parameter p (through loads, field accesses, calls)?
+func usesParam(v ssa.Value, p *ssa.Parameter, depth int) bool {
+	if v == nil || depth > 8 {
+		return false
+	}
+	if v == ssa.Value(p) {
+		return true
+	}
+	in, ok := v.(ssa.Instruction)
+	if !ok {
+		return false
+	}
+	if _, isPhi := v.(*ssa.Phi); isPhi && depth > 3 {
+		return false
+	}
+	for _, op := range in.Operands(nil) {
+		if *op != nil && usesParam(*op, p, depth+1) {
+			return true
+		}
+	}
+	return false
+}
+
+// c06NoWriteIntoNilHeaderMap: R06.6 — a write into the header map of a message object that this function built
+// itself (a fresh &Response{...} / &Request{...}) needs the map to have been set on that very object first: a
+// literal without Headers has a nil map, and MIMEHeader.Set / Add on a nil map panic. Nothing recovers on the
+// accept path, so one request that reaches such a branch kills the server.
+func c06NoWriteIntoNilHeaderMap(w *World, r *Report) {
+	rule := "R06.6"
+	n := 0
+	var fns []*ssa.Function
+	for fn := range allModuleFuncs(w, w.SSA()) {
+		if fn.Pkg != nil && fn.Pkg.Pkg.Path() == modPath+"/internal/socketace" {
+			fns = append(fns, fn)
+		}
+	}
+	sort.Slice(fns, func(i, j int) bool { return fns[i].Pos() < fns[j].Pos() })
+	isMapField := func(fa *ssa.FieldAddr) bool {
+		fv := fieldVarOf(fa)
+		if fv == nil {
+			return false
+		}
+		_, isMap := fv.Type().Underlying().(*types.Map)
+		return isMap
+	}
+	for _, fn := range fns {
+		ord := 0
+		for _, c := range callsIn(fn) {
+			call, ok := c.(*ssa.Call)
+			if !ok {
+				continue
+			}
+			f := sCallee(c)
+			if f == nil || (f.Name() != "Set" && f.Name() != "Add") || len(call.Call.Args) == 0 {
+				continue
+			}
+			if _, isMap := call.Call.Args[0].Type().Underlying().(*types.Map); !isMap {
+				continue
+			}
+			// the map is loaded from a field of some object
+			ld, ok := call.Call.Args[0].(*ssa.UnOp)
+			if !ok {
+				continue
+			}
+			fa, ok := ld.X.(*ssa.FieldAddr)
+			if !ok || !isMapField(fa) {
+				continue
+			}
+			n++
+			fld := fieldVarOf(fa)
+			key := fmt.Sprintf("call:%s.%s@%s#%d", fld.Name(), f.Name(), ssaFuncKey(fn), ord)
+			ord++
+			bad := ""
+			okp := enumPaths(fn, nil, func(in ssa.Instruction) bool {
+				st, ok := in.(*ssa.Store)
+				if !ok {
+					return false
+				}
+				fa2, ok := st.Addr.(*ssa.FieldAddr)
+				return ok && fieldVarOf(fa2) == fld
+			}, func(in ssa.Instruction) bool { return in == ssa.Instruction(call) }, func(e pathExit) {
+				if e.Stop == nil || bad != "" {
+					return
+				}
+				obj := e.State.Resolve(fa.X)
+				al, isAlloc := obj.(*ssa.Alloc)
+				if !isAlloc {
+					return // an object that came from elsewhere (parsed, handed in): not judged here
+				}
+				set := false
+				for _, ev := range e.State.Events {
+					st := ev.(*ssa.Store)
+					if e.State.Resolve(st.Addr.(*ssa.FieldAddr).X) == ssa.Value(al) && !isConstNil(st.Val) {
+						set = true
+					}
+				}
+				if !set {
+					bad = fmt.Sprintf("%s: %s.%s is called on the %s of an object built at %s whose %s was never set on this path: a write into a nil map panics, and nothing on the accept path recovers — one peer request that reaches this branch ends the process", w.Pos(call.Pos()), fld.Name(), f.Name(), fld.Name(), w.Pos(al.Pos()), fld.Name())
+				}
+			})
+			if !okp {
+				r.Undecided(rule, key, w.Pos(call.Pos()), "path budget exceeded")
+				continue
+			}
+			r.Check(bad == "", rule, key, w.Pos(call.Pos()), "on every path the object's map was set before it is written", bad)
+		}
+	}
+	if n == 0 {
+		r.Hold(rule, "calls:none", "-", "no header is written through a field of a message object (header maps are built separately and attached)")
+	}
+}
+
+// c13LiveSlotBeforeRetiredRecord: R13.9 — identifiers are reused: the retired-session table can hold a record for
+// the very slot (and the very address) a live session occupies now. The validation therefore answers "this
+// session was closed" only where the live slot is empty: every path that returns on behalf of a retired record
+// has found the live entry nil.
+func c13LiveSlotBeforeRetiredRecord(w *World, r *Report) {
+	rule := "R13.9"
+	sl := w.Named("internal/streams/dns", "ServerDnsListener")
+	uc := w.Named("internal/streams/dns", "userConnection")
+	fn := w.SSAFunc(methodOf(sl, "validateAndGetUser"))
+	key := "method:(*streams/dns.ServerDnsListener).validateAndGetUser|live-first"
+	if sl == nil || uc == nil || fn == nil {
+		r.Undecided(rule, key, "-", "anchor unresolved")
+		return
+	}
+	var tables []*types.Var
+	st := sl.Underlying().(*types.Struct)
+	for i := 0; i < st.NumFields(); i++ {
+		if slc, ok := st.Field(i).Type().(*types.Slice); ok {
+			if p, ok := slc.Elem().(*types.Pointer); ok && types.Identical(p.Elem(), uc) {
+				tables = append(tables, st.Field(i))
+			}
+		}
+	}
+	if len(tables) != 2 {
+		r.Undecided(rule, key, w.Pos(fn.Pos()), "expected a live and a retired session table")
+		return
+	}
+	live, retired := tables[0], tables[1]
+	entryOf := func(v ssa.Value, tbl *types.Var) bool {
+		for _, root := range provenance(v, provOpts{}) {
+			u, ok := root.(*ssa.UnOp)
+			if !ok {
+				continue
+			}
+			ia, ok := u.X.(*ssa.IndexAddr)
+			if !ok {
+				continue
+			}
+			for _, r2 := range provenance(ia.X, provOpts{}) {
+				if isLoadOfField(r2, tbl) {
+					return true
+				}
+			}
+		}
+		return false
+	}
+	bad := ""
+	nret := 0
+	for _, g := range staticCone(fn, 2) {
+		okp := enumPaths(g, nil, nil, nil, func(e pathExit) {
+			ret, isRet := e.Last.(*ssa.Return)
+			if !isRet || len(ret.Results) == 0 || bad != "" {
+				return
+			}
+			// does this path answer on behalf of a retired record? (it found a retired entry non-nil)
+			usesRetired := false
+			for v, t := range e.State.Facts {
+				if x, eqNil, ok := nilTest(v); ok && t != eqNil && entryOf(x, retired) {
+					usesRetired = true
+				}
+			}
+			if !usesRetired {
+				return
+			}
+			nret++
+			liveNil := false
+			for v, t := range e.State.Facts {
+				if x, eqNil, ok := nilTest(v); ok && t == eqNil && entryOf(x, live) {
+					liveNil = true
+				}
+			}
+			if !liveNil && g == fn {
+				bad = fmt.Sprintf("%s: a retired record decides the answer on a path that has not found the live slot empty: after a slot is reused from the same address, the live session is answered 'closed' (BADCONN) for ever — terminated by an earlier session's closing", w.Pos(ret.Pos()))
+			}
+		})
+		if !okp {
+			r.Undecided(rule, key, w.Pos(fn.Pos()), "path budget exceeded")
+			return
+		}
+	}
+	// a retired-table lookup moved into a helper: the helper's call site must lie under "live entry == nil"
+	for _, c := range callsIn(fn) {
+		sc := c.Common().StaticCallee()
+		if sc == nil || !inModule(sc) || sc == fn {
+			continue
+		}
+		touches := false
+		allInstrs(sc, func(in ssa.Instruction) {
+			if v, ok := in.(ssa.Value); ok && isLoadOfField(v, retired) {
+				touches = true
+			}
+		})
+		if !touches {
+			continue
+		}
+		nret++
+		ci, _ := c.(ssa.Instruction)
+		if !dominatedByCondNil(fn, ci, func(v ssa.Value) bool {
+			x, _, ok := nilTest(v)
+			return ok && entryOf(x, live)
+		}) && !dominatedByCond(fn, ci, func(v ssa.Value) bool {
+			x, eqNil, ok := nilTest(v)
+			return ok && eqNil && entryOf(x, live)
+		}, true) && bad == "" {
+			bad = fmt.Sprintf("%s: the retired-session lookup (%s) is not confined to the branch where the live slot is empty", w.Pos(c.Pos()), ssaFuncKey(sc))
+		}
+	}
+	r.Check(bad == "" && nret > 0, rule, key, w.Pos(fn.Pos()), fmt.Sprintf("%d place(s) where a retired record decides, each under 'live slot empty'", nret), bad+mapStr(nret == 0, "no path consults the retired table (a closed session's identifier is no longer recognised)"))
+}
+
+// ruleUnescaperRegexpsAnchored: the name unescaper decides the width of its next step with a regular expression
+// over the REST of the name (`\DDD` = backslash + three digits). Such an expression must be anchored at the
+// start: unanchored, three digits anywhere later in the name turn a two-byte escape into a four-byte one.
+func ruleUnescaperRegexpsAnchored(w *World, r *Report, rule string) {
+	sd := w.SSAFunc(w.Func("internal/streams/dns/commands", "StripDomain"))
+	if sd == nil {
+		r.Undecided(rule, "func:commands.StripDomain|regexps", "-", "anchor unresolved")
+		return
+	}
+	p := w.Pkg("internal/streams/dns/commands")
+	n := 0
+	var bad []string
+	seenG := map[*ssa.Global]bool{}
+	for _, g := range staticCone(sd, 2) {
+		allInstrs(g, func(in ssa.Instruction) {
+			for _, op := range in.Operands(nil) {
+				gl, ok := (*op).(*ssa.Global)
+				if !ok || seenG[gl] {
+					continue
+				}
+				if pt, ok := gl.Type().(*types.Pointer); !ok || !strings.HasSuffix(pt.Elem().String(), "regexp.Regexp") {
+					continue
+				}
+				seenG[gl] = true
+				// its pattern: the constant handed to regexp.MustCompile in the declaration
+				pat, found := "", false
+				for _, f := range p.Syntax {
+					ast.Inspect(f, func(x ast.Node) bool {
+						vs, ok := x.(*ast.ValueSpec)
+						if !ok {
+							return true
+						}
+						for i, nm := range vs.Names {
+							if p.TypesInfo.Defs[nm] == gl.Object() && i < len(vs.Values) {
+								if call, ok := vs.Values[i].(*ast.CallExpr); ok && len(call.Args) == 1 {
+									if sv, ok := constStr(p.TypesInfo, call.Args[0]); ok {
+										pat, found = sv, true
+									}
+								}
+							}
+						}
+						return true
+					})
+				}
+				n++
+				if !found {
+					bad = append(bad, fmt.Sprintf("%s: the pattern of %s is not a constant", w.Pos(gl.Pos()), gl.Name()))
+				} else if !strings.HasPrefix(pat, "^") && !strings.HasPrefix(pat, `\A`) {
+					bad = append(bad, fmt.Sprintf("%s: the pattern %q of %s, which the name unescaper applies to the rest of the name, is not anchored at the start: digits anywhere later in the name are taken for a \\DDD escape here, and four bytes are consumed where two were meant — the server decodes another payload than the client sent", w.Pos(gl.Pos()), pat, gl.Name()))
+				}
+			}
+		})
+	}
+	sort.Strings(bad)
+	// no regular expression at all (the digits tested by hand) leaves nothing to anchor: R09.5 / R11.x decide the width then
+	r.Check(len(bad) == 0, rule, "func:commands.StripDomain|regexps", w.Pos(sd.Pos()), fmt.Sprintf("%d regular expression(s) used by the unescaper, each anchored at the start", n), strings.Join(bad, "; "))
+}
+
+// ruleHeaderListElementsTrimmed: header lists are "token *( OWS "," OWS token )": the splitter must not leave
+// optional white space glued to the elements, because the capability test compares elements with ==. A
+// StartTLS offer written "Keepalive, StartTLS" would not be recognised, and the session goes on in clear text.
+func ruleHeaderListElementsTrimmed(w *World, r *Report, rule string) {
+	sf := w.Func("internal/util/mime", "SplitField")
+	fn := w.SSAFunc(sf)
+	key := "func:util/mime.SplitField|ows"
+	if fn == nil {
+		r.Undecided(rule, key, "-", "anchor unresolved: mime.SplitField")
+		return
+	}
+	p := w.Pkg("internal/util/mime")
+	ok, why := false, "the elements are neither produced by a regular expression that swallows the white space around the comma nor trimmed one by one"
+	for _, g := range staticCone(fn, 1) {
+		for _, c := range callsIn(g) {
+			f := sCallee(c)
+			if f == nil {
+				continue
+			}
+			// regexp.Split with a pattern of the form \s*,\s*
+			if f.Name() == "Split" && f.Pkg() != nil && f.Pkg().Path() == "regexp" {
+				for _, root := range provenance(c.Common().Args[0], provOpts{}) {
+					u, isU := root.(*ssa.UnOp)
+					if !isU {
+						continue
+					}
+					gl, isG := u.X.(*ssa.Global)
+					if !isG {
+						continue
+					}
+					for _, file := range p.Syntax {
+						ast.Inspect(file, func(x ast.Node) bool {
+							vs, isVs := x.(*ast.ValueSpec)
+							if !isVs {
+								return true
+							}
+							for i, nm := range vs.Names {
+								if p.TypesInfo.Defs[nm] == gl.Object() && i < len(vs.Values) {
+									if call, isCall := vs.Values[i].(*ast.CallExpr); isCall && len(call.Args) == 1 {
+										if sv, isS := constStr(p.TypesInfo, call.Args[0]); isS {
+											if strings.HasPrefix(sv, `\s*`) && strings.HasSuffix(sv, `\s*`) && strings.Contains(sv, ",") {
+												ok = true
+											} else {
+												why = fmt.Sprintf("the separator pattern %q does not swallow white space on both sides of the comma", sv)
+											}
+										}
+									}
+								}
+							}
+							return true
+						})
+					}
+				}
+			}
+			// strings.Split followed by a TrimSpace of every element (inside a loop over the result)
+			if f.Name() == "TrimSpace" && f.Pkg() != nil && f.Pkg().Path() == "strings" {
+				if call, isCall := c.(*ssa.Call); isCall && cycleThrough(call.Block()) != nil {
+					ok = true
+				}
+			}
+		}
+	}
+	r.Check(ok, rule, key, w.Pos(sf.Pos()), "list elements come out without the optional white space around the commas", why+": a capability written with a blank beside the comma (\"Keepalive, StartTLS\") is not recognised by the == comparison, the client does not ask for StartTLS and the session stays in clear text")
+}
+
+// c16NoRoundIsSkipped: R16.10 — "after that session is lost the next local connection transparently establishes
+// a new one". In Upstreams.Connect, whenever the reuse test says there is no usable session, the round over the
+// upstreams (open) is actually run before Connect returns: no path skips it (a hold-off after a failed round
+// turns away exactly the connection that would have found the server back).
+func c16NoRoundIsSkipped(w *World, r *Report, uc, openM *types.Func) {
+	rule := "R16.10"
+	fn := w.SSAFunc(uc)
+	key := "method:(*client/upstream.Upstreams).Connect|round-always-run"
+	if fn == nil || openM == nil {
+		r.Undecided(rule, key, "-", "anchor unresolved")
+		return
+	}
+	connF := fieldOf(w.Named("internal/client/upstream", "Upstreams"), "connection")
+	// calls that (transitively, depth 2) run open; a helper counts only if open is called on every one of its paths
+	runsOpenAlways := map[*ssa.Function]bool{}
+	for _, g := range staticCone(fn, 2) {
+		if g == fn {
+			continue
+		}
+		all, n := true, 0
+		okp := enumPaths(g, nil, func(in ssa.Instruction) bool {
+			c, ok := in.(ssa.CallInstruction)
+			return ok && sCallee(c) == openM
+		}, nil, func(e pathExit) {
+			if _, isRet := e.Last.(*ssa.Return); !isRet {
+				return
+			}
+			n++
+			if len(e.State.Events) == 0 {
+				all = false
+			}
+		})
+		if okp && all && n > 0 {
+			runsOpenAlways[g] = true
+		}
+	}
+	isOpen := func(in ssa.Instruction) bool {
+		c, ok := in.(ssa.CallInstruction)
+		if !ok {
+			return false
+		}
+		if sCallee(c) == openM {
+			return true
+		}
+		return runsOpenAlways[c.Common().StaticCallee()]
+	}
+	bad := ""
+	nneed := 0
+	okp := enumPaths(fn, nil, isOpen, nil, func(e pathExit) {
+		if _, isRet := e.Last.(*ssa.Return); !isRet || bad != "" {
+			return
+		}
+		// no usable session on this path?
+		need := false
+		for v, t := range e.State.Facts {
+			if x, eqNil, ok := nilTest(v); ok && t == eqNil && isLoadOfField(x, connF) {
+				need = true
+			}
+			if c, ok := v.(*ssa.Call); ok && t && c.Call.IsInvoke() && c.Call.Method.Name() == "Closed" {
+				for _, root := range provenance(c.Call.Value, provOpts{}) {
+					if isLoadOfField(root, connF) {
+						need = true
+					}
+				}
+			}
+			// the test inside a predicate helper
+			if hc, ok := v.(*ssa.Call); ok {
+				if h := hc.Call.StaticCallee(); h != nil && inModule(h) {
+					if predicateHelperImplies(h, t, func(facts map[ssa.Value]bool) bool {
+						for v2, t2 := range facts {
+							if x, eqNil, ok := nilTest(v2); ok && t2 == eqNil && isLoadOfField(x, connF) {
+								return true
+							}
+							if c2, ok := v2.(*ssa.Call); ok && t2 && c2.Call.IsInvoke() && c2.Call.Method.Name() == "Closed" {
+								return true
+							}
+						}
+						return false
+					}) {
+						need = true
+					}
+				}
+			}
+		}
+		if !need {
+			return
+		}
+		nneed++
+		if len(e.State.Events) == 0 {
+			bad = fmt.Sprintf("Connect can return on a path where no usable session exists and the round over the upstreams was not run (e.g. a hold-off after an earlier failure): a local connection is turned away although a server may be reachable again — the client does not re-establish the session 'transparently', and with connections arriving often enough, never")
+		}
+	})
+	// helpers that run open only on some of their paths are the same skip one level down
+	for _, g := range staticCone(fn, 2) {
+		if g == fn || runsOpenAlways[g] {
+			continue
+		}
+		calls := false
+		for _, c := range callsIn(g) {
+			if sCallee(c) == openM {
+				calls = true
+			}
+		}
+		if calls && bad == "" {
+			bad = fmt.Sprintf("%s: %s runs the round over the upstreams only on some of its paths: Connect can come back without having tried although no usable session exists", w.Pos(g.Pos()), ssaFuncKey(g))
+		}
+	}
+	if !okp {
+		r.Undecided(rule, key, w.Pos(fn.Pos()), "path budget exceeded")
+		return
+	}
+	r.Check(bad == "", rule, key, w.Pos(fn.Pos()), fmt.Sprintf("on all %d path(s) without a usable session the round over the upstreams is run", nneed), bad)
+}
+
+// c18DnsServerStartKeepsTls: R18.9 — a DNS endpoint written "+tls" is DNS over TLS because miekg's ListenAndServe
+// builds a TLS listener for the "-tls" networks from TLSConfig. A server that is started on a socket bound by
+// the caller (ActivateAndServe) serves whatever listener it was given: the listener handed over must then be
+// able to be a TLS listener (tls.NewListener / tls.Listen among its origins), or the secure endpoint speaks
+// clear-text DNS over TCP while the configuration says TLS.
+func c18DnsServerStartKeepsTls(w *World, r *Report) {
+	rule := "R18.9"
+	key := "type:miekg/dns.Server|start-keeps-tls"
+	prog := w.SSA()
+	mods := allModuleFuncs(w, prog)
+	var fns []*ssa.Function
+	for f := range mods {
+		fns = append(fns, f)
+	}
+	sort.Slice(fns, func(i, j int) bool { return fns[i].Pos() < fns[j].Pos() })
+	isDnsServerMethod := func(f *types.Func, name string) bool {
+		if f == nil || f.Name() != name || f.Pkg() == nil || !strings.HasSuffix(f.Pkg().Path(), "miekg/dns") {
+			return false
+		}
+		sig := f.Type().(*types.Signature)
+		return sig.Recv() != nil && strings.HasSuffix(sig.Recv().Type().String(), "dns.Server")
+	}
+	nListen, nActivate := 0, 0
+	actPos := "-"
+	tlsStore, plainStore := 0, ""
+	for _, f := range fns {
+		allInstrs(f, func(in ssa.Instruction) {
+			if c, ok := in.(ssa.CallInstruction); ok {
+				if isDnsServerMethod(sCallee(c), "ListenAndServe") {
+					nListen++
+				}
+				if isDnsServerMethod(sCallee(c), "ActivateAndServe") {
+					nActivate++
+					actPos = w.Pos(c.Pos())
+				}
+			}
+			st, ok := in.(*ssa.Store)
+			if !ok {
+				return
+			}
+			fa, ok := st.Addr.(*ssa.FieldAddr)
+			if !ok {
+				return
+			}
+			fv := fieldVarOf(fa)
+			if fv == nil || fv.Name() != "Listener" || fv.Pkg() == nil || !strings.HasSuffix(fv.Pkg().Path(), "miekg/dns") {
+				return
+			}
+			isTls := false
+			for _, root := range provInter(st.Val, 2) {
+				var call *ssa.Call
+				switch x := root.(type) {
+				case *ssa.Call:
+					call = x
+				case *ssa.Extract:
+					call, _ = x.Tuple.(*ssa.Call)
+				}
+				if call == nil {
+					continue
+				}
+				if f2 := sCallee(call); f2 != nil && f2.Pkg() != nil && f2.Pkg().Path() == "crypto/tls" && (f2.Name() == "NewListener" || f2.Name() == "Listen") {
+					isTls = true
+				}
+			}
+			if isTls {
+				tlsStore++
+			} else if plainStore == "" {
+				plainStore = w.Pos(st.Pos())
+			}
+		})
+	}
+	if nActivate == 0 {
+		r.Check(nListen > 0, rule, key, "-", fmt.Sprintf("the DNS server is started with ListenAndServe (%d site(s)), which builds the TLS listener for the -tls networks itself", nListen), "the DNS server is never started")
+		return
+	}
+	r.Check(tlsStore > 0, rule, key, actPos, fmt.Sprintf("the server is activated on a listener that can be a TLS listener (%d store(s) from crypto/tls)", tlsStore),
+		fmt.Sprintf("the DNS server is started with ActivateAndServe on a listener bound by the caller (%s), and no listener handed to it comes from crypto/tls: ActivateAndServe ignores Net \"tcp-tls\" and TLSConfig, so an endpoint configured dns+tcp+tls answers clear-text DNS over TCP", plainStore))
 }
